@@ -736,7 +736,7 @@ pub fn render(d: &str) -> Bytes {
         // Route Mirroring (type 6): common header, per-peer header, four octets of TLV space (routecore checks the two headers only)
         "M" => { let mut v = enc::mk_statistics_report_msg(&pph(n(1) as usize)).to_vec(); v[5] = 6; Bytes::from(v) }
         "U" => enc::mk_peer_up_notification_msg(&pph(n(1) as usize), "10.0.0.1".parse().unwrap(), 11019, 4567, 111, 222, 0, 0, vec![], n(2) == 1),
-        "D" => enc::mk_peer_down_notification_msg(&pph(n(1) as usize)),
+        "D" => super::pipe::peer_down_msg(&pph(n(1) as usize), f.get(2).map(|r| r.parse().unwrap())),
         "R" => enc::mk_raw_route_monitoring_msg(&pph(n(1) as usize), update_bytes(n(2), n(3), &l(4), n(5), &l(6))),
         "E" => enc::mk_raw_route_monitoring_msg(&pph(n(1) as usize), eor_bytes(n(2))),
         "N" => enc::mk_raw_route_monitoring_msg(&pph(n(1) as usize), malformed_update()),
